@@ -452,9 +452,61 @@ func c17SessionRace(ctx *Ctx) {
 	}
 }
 
+// c17Compressed: a client that negotiated lz4 or snappy sends frames with the compressed flag whose bodies are not what a
+// compressor produces: matches that end one to four bytes past the stated length, offsets of zero or beyond the output,
+// length bytes that never end, stated lengths that are too short, too long or huge, truncated blocks, random bytes.
+func c17Compressed(ctx *Ctx) {
+	p := startC17(c17Cfgs[0])
+	defer p.stop()
+	r := ctx.Rng
+	be32 := func(n uint32) []byte { return []byte{byte(n >> 24), byte(n >> 16), byte(n >> 8), byte(n)} }
+	var bodies [][]byte
+	for over := 0; over <= 6; over++ {
+		// "abcd" as literals, then a match of length 4+over at offset 4; the stated length leaves room for 2 bytes of it
+		tok := byte(0x40)
+		b := append(be32(6), tok|byte(over&0x0f), 'a', 'b', 'c', 'd', 4, 0)
+		bodies = append(bodies, b)
+	}
+	bodies = append(bodies,
+		append(be32(8), 0x40, 'a', 'b', 'c', 'd', 0, 0),                      // offset 0
+		append(be32(8), 0x40, 'a', 'b', 'c', 'd', 9, 0),                      // offset beyond the output
+		append(be32(100), 0xf0, 255, 255, 255),                               // literal length that never ends
+		append(be32(100), 0x0f, 1, 0, 255, 255, 255),                         // match length that never ends, no output to copy from
+		append(be32(4), 0x40, 'a', 'b'),                                      // literals beyond the input
+		append(be32(2), 0x40, 'a', 'b', 'c', 'd'),                            // stated length too short for the literals
+		append(be32(0x7fffffff), 0x40, 'a', 'b', 'c', 'd'),                   // huge stated length
+		append(be32(0xffffffff), 0x10, 'a'),                                  // "negative" stated length
+		be32(0), be32(5), []byte{0, 0}, []byte{},                                 // nothing after the length, short length field
+		append(be32(1<<20), append([]byte{0x1f, 'x', 1, 0}, bytes.Repeat([]byte{255}, 4000)...)...), // one byte repeated a million times
+	)
+	for i := 0; i < ctx.Scale(20, 3000); i++ {
+		b := append(be32(uint32(r.Intn(64))), r.Bytes(r.Intn(40))...)
+		bodies = append(bodies, b)
+	}
+	for _, comp := range []string{"lz4", "snappy"} {
+		for i, body := range bodies {
+			if !p.alive() {
+				return
+			}
+			cl, err := px.Dial(p.addr)
+			offending := true
+			if err == nil {
+				if cl.Startup(p.cver, comp) == nil {
+					_ = cl.SendRaw(frameBytes(byte(p.cver), 0x01, 5, byte(primitive.OpCodeQuery), body))
+					f, err := cl.Next(10 * time.Second)
+					offending = f != nil || err != nil
+				}
+				cl.Close()
+			}
+			p.verdict(ctx, 18, fmt.Sprintf("%s body %d: %x", comp, i, body[:min(len(body), 24)]), offending, "hostile-compressed-body")
+		}
+	}
+}
+
 func genC17(ctx *Ctx) {
 	r := ctx.Rng
 	c17SysRows(ctx)
+	c17Compressed(ctx)
 	c17FailedSession(ctx)
 	c17SessionRace(ctx)
 	c17NoReader(ctx)
